@@ -66,6 +66,14 @@ type RunCtx struct {
 	Trace []string // event log (deterministic part), kept for replay files
 	// Quiet suppresses trace collection during minimisation.
 	Quiet bool
+	// StallClause, when non-empty, says that the run is in a phase in which
+	// "the simulated system never becomes quiescent" (a goroutine spins
+	// without ever blocking, so simulated time cannot advance) is itself a
+	// violation of the property, e.g. while waiting for Stop to return.
+	// The real-time stall watchdog then reports a violation with this
+	// clause instead of an infrastructure error.
+	StallClause string
+	StallFacts  map[string]string
 
 	fp     []byte
 	states map[string]struct{}
